@@ -59,6 +59,7 @@ def wtLine (rest : String) : String :=
 def c16witnessLine (rest : String) : String :=
   match rest.trimAscii.toString with
   | "dangling" => (IR.Vir.schemasOut danglingWitness).render
+  | "alias-cycle" => (IR.Vir.schemasOut cycleWitness).render
   | "optional-const-ref" => (IR.Vir.schemasOut optionalConstRefWitness).render
   | _ => "unknown-witness"
 
